@@ -25,12 +25,18 @@ let obs_z = obs_gen (function [n] -> z_ n | _ -> raise (Parse_error "obs int"))
 let obs_bool = obs_gen (function [b] -> bool_ b | _ -> raise (Parse_error "obs bool"))
 let obs_status = obs_gen (function [c; t] -> (z_ c, str t) | _ -> raise (Parse_error "obs status"))
 
+let obs_zz = obs_gen (function [a; b] -> (z_ a, z_ b) | _ -> raise (Parse_error "obs time"))
 let show_obs f = function ObsOk a -> "ok(" ^ f a ^ ")" | ObsErr -> "err" | ObsPanic -> "panic" | ObsSkip -> "skip"
 let show_res f = function Ok a -> "ok(" ^ f a ^ ")" | Err _ -> "err" | Panic -> "panic"
 let show_z z = string_of_int (int_of_z z)
+let show_zz (a, b) = show_z a ^ "." ^ show_z b
 let show_status (c, t) = show_z c ^ "," ^ show_chars t
 let show_opt f = function Some a -> "some(" ^ f a ^ ")" | None -> "none"
 let okness = function ObsOk _ -> "ok" | ObsErr -> "err" | ObsPanic -> "panic" | ObsSkip -> "skip"
+
+(* the detail text is only built for cases that are reported *)
+let verdict ~agree ~spec ~kf ~(detail : unit -> string) : string option =
+  if agree && spec && kf = "-" then None else Sx.verdict ~agree ~spec ~kf ~detail:(detail ())
 
 let () =
   run_file Sys.argv.(1) (fun _ sx ->
@@ -41,35 +47,35 @@ let () =
       bump ("depth_rt_" ^ (if depth_valid d then "valid" else "invalid"));
       if depth_valid d then note_nontrivial (show (List.hd sx));
       verdict ~agree:(depth_rt_agrees d of_ op) ~spec:(depth_rt_spec_ok d of_ op) ~kf:"-"
-        ~detail:(Printf.sprintf "model fmt=%s" (show_res show_chars (depth_string d)))
+        ~detail:(fun () -> Printf.sprintf "model fmt=%s" (show_res show_chars (depth_string d)))
     | [L [A "depth-dec"; s]; o] ->
       let s = str s and o = obs_z o in
       bump ("depth_dec_" ^ okness o);
       note_nontrivial (show (List.hd sx));
       verdict ~agree:(depth_dec_agrees s o) ~spec:(depth_dec_spec_ok s o) ~kf:"-"
-        ~detail:(Printf.sprintf "model=%s" (show_res show_z (parse_depth s)))
+        ~detail:(fun () -> Printf.sprintf "model=%s" (show_res show_z (parse_depth s)))
     (* ---- Overwrite *)
     | [L [A "ow-rt"; b]; L [f; op]] ->
       let b = bool_ b and f = str f and op = obs_bool op in
       bump "ow_rt"; note_nontrivial (show (List.hd sx));
       verdict ~agree:(overwrite_rt_agrees b f op) ~spec:(overwrite_rt_spec_ok b f op) ~kf:"-"
-        ~detail:(Printf.sprintf "model fmt=%s" (show_chars (format_overwrite b)))
+        ~detail:(fun () -> Printf.sprintf "model fmt=%s" (show_chars (format_overwrite b)))
     | [L [A "ow-dec"; s]; o] ->
       let s = str s and o = obs_bool o in
       bump ("ow_dec_" ^ okness o); note_nontrivial (show (List.hd sx));
       verdict ~agree:(overwrite_dec_agrees s o) ~spec:(overwrite_dec_spec_ok s o) ~kf:"-"
-        ~detail:(Printf.sprintf "model=%s" (show_res string_of_bool (parse_overwrite s)))
+        ~detail:(fun () -> Printf.sprintf "model=%s" (show_res string_of_bool (parse_overwrite s)))
     | [L [A "copy-e2e"; a; b]; o] ->
       let o = obs_gen (function [x; y] -> (bool_ x, bool_ y) | _ -> raise (Parse_error "obs copy")) o in
       bump "copy_e2e"; note_nontrivial (show (List.hd sx));
-      verdict ~agree:(copy_e2e_agrees (bool_ a) (bool_ b) o) ~spec:(copy_e2e_spec_ok (bool_ a) (bool_ b) o) ~kf:"-" ~detail:"copy options end to end"
+      verdict ~agree:(copy_e2e_agrees (bool_ a) (bool_ b) o) ~spec:(copy_e2e_spec_ok (bool_ a) (bool_ b) o) ~kf:"-" ~detail:(fun () -> "copy options end to end")
     (* ---- status line *)
     | [L [A ("status-rt" | "status-e2e"); c; t]; L [m; o]] ->
       let s = (z_ c, str t) and m = str m and o = obs_status o in
       bump ((atom (List.hd (list (List.hd sx)))) ^ (if status_in_domain s then "_in_domain" else "_outside"));
       if status_in_domain s then note_nontrivial (show (List.hd sx));
       verdict ~agree:(status_rt_agrees s m o) ~spec:(status_rt_spec_ok s m o) ~kf:"-"
-        ~detail:(Printf.sprintf "model marshal=%s unmarshal=%s" (show_chars (status_marshal s))
+        ~detail:(fun () -> Printf.sprintf "model marshal=%s unmarshal=%s" (show_chars (status_marshal s))
                    (show_res show_status (status_unmarshal status_zero (status_marshal s))))
     | [L [A "status-dec"; b]; o] ->
       let b = str b and o = obs_status o in
@@ -77,10 +83,40 @@ let () =
       if b <> [] then note_nontrivial (show (List.hd sx));
       let kf = if kf_status_empty b o then "C16-status-empty" else "-" in
       verdict ~agree:(status_dec_agrees b o) ~spec:(status_dec_spec_ok b o) ~kf
-        ~detail:(Printf.sprintf "model=%s grammar=%s" (show_res show_status (status_unmarshal status_zero b))
+        ~detail:(fun () -> Printf.sprintf "model=%s grammar=%s" (show_res show_status (status_unmarshal status_zero b))
                    (show_opt show_status (status_den b)))
     | [L [A "status-text"; c]; t] ->
       bump "status_text";
       let ok = status_text_agrees (z_ c) (str t) in
-      verdict ~agree:ok ~spec:true ~kf:"-" ~detail:"http.StatusText table"
+      verdict ~agree:ok ~spec:true ~kf:"-" ~detail:(fun () -> "http.StatusText table")
+    (* ---- instants *)
+    | [L [A "civil"; t]; L [y; m; d; h; mi; s; wd]] ->
+      bump "civil";
+      let ok = civil_agrees (z_ t) (z_ y) (z_ m) (z_ d) (z_ h) (z_ mi) (z_ s) (z_ wd) in
+      verdict ~agree:ok ~spec:true ~kf:"-" ~detail:(fun () -> "calendar arithmetic vs package time")
+    | [L [A ("time-rt" | "ical-rt" as k); t; off]; L [m; o]] ->
+      let i = (z_ t, z_ off) and m = str m and o = obs_zz o in
+      let http = (k = "time-rt") in
+      bump (k ^ (if instant_in_domain i then "_in_domain" else "_outside"));
+      bump (k ^ (if int_ off = 0 then "_utc" else "_zoned"));
+      if instant_in_domain i then note_nontrivial (show (List.hd sx));
+      let agree = if http then time_rt_agrees i m o else icaldate_rt_agrees i m o in
+      let spec = if http then time_rt_spec_ok i m o else icaldate_rt_spec_ok i m o in
+      verdict ~agree ~spec ~kf:"-"
+        ~detail:(fun () -> let mm = if http then time_marshal i else icaldate_marshal i in
+                   Printf.sprintf "model marshal=%s unmarshal=%s" (show_chars mm)
+                   (show_res show_zz (if http then time_unmarshal mm else icaldate_unmarshal mm)))
+    | [L [A "time-dec"; b]; o] ->
+      let b = str b and o = obs_zz o in
+      bump ("time_dec_" ^ okness o ^ (match http_den b with Some _ -> "_in_grammar" | None -> "_outside_grammar"));
+      note_nontrivial (show (List.hd sx));
+      let kf = if kf_httpdate_lenient b o then "C16-httpdate-lenient" else "-" in
+      verdict ~agree:(time_dec_agrees b o) ~spec:(time_dec_spec_ok b o) ~kf
+        ~detail:(fun () -> Printf.sprintf "model=%s grammar=%s" (show_res show_zz (time_unmarshal b)) (show_opt show_z (http_den b)))
+    | [L [A "ical-dec"; b]; o] ->
+      let b = str b and o = obs_zz o in
+      bump ("ical_dec_" ^ okness o ^ (match ical_den b with Some _ -> "_in_grammar" | None -> "_outside_grammar"));
+      note_nontrivial (show (List.hd sx));
+      verdict ~agree:(icaldate_dec_agrees b o) ~spec:(icaldate_dec_spec_ok b o) ~kf:"-"
+        ~detail:(fun () -> Printf.sprintf "model=%s grammar=%s" (show_res show_zz (icaldate_unmarshal b)) (show_opt show_z (ical_den b)))
     | _ -> raise (Parse_error "line"))
